@@ -35,6 +35,26 @@ Theorem C03_applied_signed_full : forall pk g, g_proposer g = Addr pk -> forall 
 Proof. exact applied_signed_full. Qed.
 Print Assumptions C03_applied_signed_full.
 
+(* ---- the P2P header store as the block manager reads it: ranges ------------------------------------------------- *)
+(* HeaderStoreRetrieveLoop reads, per pass, ALL headers the store gained since the last pass (block/store.go:24-58):
+   one in the steady state, many after a catch-up, a range sync, a start-up backlog or a slow tick.  Whatever the range
+   holds — any number of headers, of any origin (go-header's own checks never look at a signature), forged ones below
+   a genuine newest header or above it — what the pass hands to the sync loop is exactly the subsequence of headers
+   that pass the sequencer test EACH ON ITS OWN, and every one of them is signed by the proposer's key *)
+Theorem C03_store_range_full : forall pk g, g_proposer g = Addr pk -> forall tb l s,
+  forward_range g tb s l = fold_left (sync_header tb) (forwarded g l) s /\
+  Forall (fun sh => signed_by pk sh = true) (forwarded g l).
+Proof. exact store_range_full. Qed.
+Print Assumptions C03_store_range_full.
+
+(* a range read in ONE pass leaves the node exactly where its headers leave it when the store grows, and the loop
+   passes, one header at a time: the position of a header inside a range gives it nothing *)
+Theorem C03_store_range_as_singles_full : forall g now tb l s,
+  n_crashed s = false -> range_ok (n_hstore s) l = true ->
+  fst (node_step g now tb s (IStoreRange l)) = node_final g now tb s (map (fun x => IStoreRange [x]) l).
+Proof. exact range_as_singles. Qed.
+Print Assumptions C03_store_range_as_singles_full.
+
 (* ---- transaction data: what ties it to the proposer's signature ------------------------------------- *)
 (* Block data on the P2P data topic carries no signature; it is accepted only because the proposer-signed header
    commits to it (types.Validate: DACommitment(data.Txs) == header.DataHash).  The bytes DACommitment hashes
@@ -212,6 +232,41 @@ Example ex_crowded_height :
 Proof. vm_compute. repeat split; reflexivity. Qed.
 
 Example ex_harmless_p2p : forallb (harmless W.pk) [IGossipH own_sh; IGossipD W.FD false] = true.
+Proof. vm_compute. reflexivity. Qed.
+
+(* a range of the header store: a self-consistent forgery for height 2 (made, addressed and signed with a third party's
+   own key; the content of the genuine header otherwise) BELOW the genuine header of height 3.  It passes ValidateBasic,
+   it is not handed to the sync loop; the genuine data of block 2 is waiting in the cache, and the node stays at
+   height 1.  A test of the proposer done once per range, on its newest header (the rest only through ValidateBasic),
+   hands the forgery over: block 2 is applied and stored under a header the proposer never signed. *)
+Definition H3 : header := Header 3 3000 7 (Some W.H2) [] 52 (Addr W.pk).
+Definition sh3 : sheader := {| sh_hdr := H3; sh_sig := Sig W.pk H3; sh_signer := W.prop_signer |}.
+Definition FH2 : header := Header 2 2000 7 (Some W.H1) [5; 6] 51 (Addr W.ak).
+Definition fsh2 : sheader := {| sh_hdr := FH2; sh_sig := Sig W.ak FH2; sh_signer := own_signer |}.
+Definition tb3 : exec_tbl := W.tb ++ [(52, [], 53)].
+Definition before_range : list item := [IInitH W.sh1; IInitD W.D1; IGossipD W.D2 true].
+Definition forward_range_newest_only (g : genesis) (tb : exec_tbl) (s : nstate) (l : list sheader) : nstate :=
+  match rev l with
+  | newest :: _ =>
+      if addr_eqb (h_proposer (sh_hdr newest)) (g_proposer g)
+      then fold_left (fun s sh => if validate_basic sh then sync_header tb s sh else s) l s
+      else s
+  | [] => s
+  end.
+Example ex_store_range :
+  let s0 := node_final W.gen W.now tb3 W.s0 before_range in
+  let s := fst (node_step W.gen W.now tb3 s0 (IStoreRange [fsh2; sh3])) in
+  let bad := forward_range_newest_only W.gen tb3 s0 [fsh2; sh3] in
+  (validate_basic fsh2, signed_by W.pk fsh2, range_ok (n_hstore s0) [fsh2; sh3],
+   map (fun x => h_height (sh_hdr x)) (forwarded W.gen [fsh2; sh3]),
+   snd (node_step W.gen W.now tb3 s0 (IStoreRange [fsh2; sh3])),
+   n_height s, match n_hstore s with t :: _ => h_height (sh_hdr t) | [] => 0 end, n_height bad, map (fun b => signed_by W.pk (fst b)) (n_applied bad))
+  = (true, false, true, [3], 21, 1, 3, 3, [true; false; true]).
+Proof. vm_compute. reflexivity. Qed.
+(* the same range with the genuine header of height 2: both blocks are applied; a range is honest traffic ([init_ok]) *)
+Example ex_store_range_genuine :
+  let s := node_final W.gen W.now tb3 W.s0 (before_range ++ [IStoreRange [W.sh2; sh3]]) in
+  (n_height s, n_halted s, forallb (init_ok W.pk) (before_range ++ [IStoreRange [W.sh2; sh3]])) = (3, false, true).
 Proof. vm_compute. reflexivity. Qed.
 
 (* the P2P witness: genuine P2P traffic reaches height 2; with one unauthenticated data item the node halts at 1 *)
